@@ -66,6 +66,10 @@ impl Cache {
 
     /// Get current timestamp in milliseconds since UNIX epoch
     fn current_timestamp_ms() -> i64 {
+        #[cfg(vlsp_verif)]
+        if let Some(now) = crate::verif::now_override() {
+            return now;
+        }
         std::time::SystemTime::now()
             .duration_since(std::time::UNIX_EPOCH)
             .expect("system time before UNIX epoch")
@@ -90,11 +94,15 @@ impl Cache {
             "#,
             [],
         )?;
+        #[cfg(vlsp_verif)]
+        crate::verif::point("schema.1")?;
 
         conn.execute(
             "CREATE INDEX IF NOT EXISTS idx_updated_at ON packages(updated_at)",
             [],
         )?;
+        #[cfg(vlsp_verif)]
+        crate::verif::point("schema.2")?;
 
         conn.execute(
             r#"
@@ -108,11 +116,15 @@ impl Cache {
             "#,
             [],
         )?;
+        #[cfg(vlsp_verif)]
+        crate::verif::point("schema.3")?;
 
         conn.execute(
             "CREATE INDEX IF NOT EXISTS idx_package_id ON versions(package_id)",
             [],
         )?;
+        #[cfg(vlsp_verif)]
+        crate::verif::point("schema.4")?;
 
         conn.execute(
             r#"
@@ -127,11 +139,15 @@ impl Cache {
             "#,
             [],
         )?;
+        #[cfg(vlsp_verif)]
+        crate::verif::point("schema.5")?;
 
         conn.execute(
             "CREATE INDEX IF NOT EXISTS idx_dist_tags_package_id ON dist_tags(package_id)",
             [],
         )?;
+        #[cfg(vlsp_verif)]
+        crate::verif::point("schema.6")?;
 
         // Apply migrations
         Self::apply_migrations(&conn)?;
@@ -149,6 +165,8 @@ impl Cache {
             let version = (i + 1) as i32;
             if version > current_version {
                 for sql in *statements {
+                    #[cfg(vlsp_verif)]
+                    crate::verif::point("migrate.before_stmt")?;
                     // Handle "duplicate column name" error for existing DBs
                     // that were created before the migration system
                     match conn.execute(sql, []) {
@@ -167,6 +185,8 @@ impl Cache {
 
         let target_version = MIGRATIONS.len() as i32;
         if target_version > current_version {
+            #[cfg(vlsp_verif)]
+            crate::verif::point("migrate.before_user_version")?;
             conn.pragma_update(None, "user_version", target_version)?;
             debug!("Updated schema version to v{}", target_version);
         }
@@ -210,6 +230,8 @@ impl Cache {
         let registry_type_str = registry_type.as_str();
         let mut conn = self.lock_conn()?;
         let tx = conn.transaction()?;
+        #[cfg(vlsp_verif)]
+        crate::verif::point("tags.begin")?;
 
         // Get or create package
         let now = Self::current_timestamp_ms();
@@ -222,6 +244,8 @@ impl Cache {
             "#,
             (registry_type_str, package_name, now),
         )?;
+        #[cfg(vlsp_verif)]
+        crate::verif::point("tags.after_upsert")?;
 
         let package_id: i64 = tx.query_row(
             "SELECT id FROM packages WHERE registry_type = ?1 AND package_name = ?2",
@@ -231,6 +255,8 @@ impl Cache {
 
         // Delete existing dist tags and insert new ones
         tx.execute("DELETE FROM dist_tags WHERE package_id = ?1", [package_id])?;
+        #[cfg(vlsp_verif)]
+        crate::verif::point("tags.after_delete")?;
 
         {
             let mut stmt = tx.prepare(
@@ -238,10 +264,16 @@ impl Cache {
             )?;
             for (tag_name, version) in dist_tags {
                 stmt.execute((package_id, tag_name, version))?;
+                #[cfg(vlsp_verif)]
+                crate::verif::point("tags.after_tag")?;
             }
         }
 
+        #[cfg(vlsp_verif)]
+        crate::verif::point("tags.before_commit")?;
         tx.commit()?;
+        #[cfg(vlsp_verif)]
+        crate::verif::point("tags.after_commit")?;
         Ok(())
     }
 
@@ -370,6 +402,8 @@ impl VersionStorer for Cache {
 
         let mut conn = self.lock_conn()?;
         let tx = conn.transaction()?;
+        #[cfg(vlsp_verif)]
+        crate::verif::point("replace.begin")?;
 
         // Insert or update package
         tx.execute(
@@ -380,6 +414,8 @@ impl VersionStorer for Cache {
             "#,
             (registry_type, package_name, now),
         )?;
+        #[cfg(vlsp_verif)]
+        crate::verif::point("replace.after_upsert")?;
 
         // Get package_id
         let package_id: i64 = tx.query_row(
@@ -395,10 +431,16 @@ impl VersionStorer for Cache {
                 tx.prepare("INSERT OR IGNORE INTO versions (package_id, version) VALUES (?1, ?2)")?;
             for version in &versions {
                 stmt.execute((package_id, version))?;
+                #[cfg(vlsp_verif)]
+                crate::verif::point("replace.after_version")?;
             }
         }
 
+        #[cfg(vlsp_verif)]
+        crate::verif::point("replace.before_commit")?;
         tx.commit()?;
+        #[cfg(vlsp_verif)]
+        crate::verif::point("replace.after_commit")?;
 
         debug!(
             "Successfully saved versions for {}/{}",
@@ -449,6 +491,8 @@ impl VersionStorer for Cache {
         let timeout_threshold = now - FETCH_TIMEOUT_MS;
 
         let conn = self.lock_conn()?;
+        #[cfg(vlsp_verif)]
+        crate::verif::point("claim.before_update")?;
 
         // Try to set fetching_since if:
         // 1. fetching_since is NULL (not being fetched)
@@ -466,6 +510,8 @@ impl VersionStorer for Cache {
         if rows_affected > 0 {
             return Ok(true);
         }
+        #[cfg(vlsp_verif)]
+        crate::verif::point("claim.before_insert")?;
 
         // Package might not exist yet - try to insert with fetching_since set
         // INSERT OR IGNORE ensures only the first caller succeeds for new packages
@@ -489,6 +535,8 @@ impl VersionStorer for Cache {
     ) -> Result<(), CacheError> {
         let registry_type = registry_type.as_str();
         let conn = self.lock_conn()?;
+        #[cfg(vlsp_verif)]
+        crate::verif::point("finish.before_update")?;
 
         conn.execute(
             "UPDATE packages SET fetching_since = NULL WHERE registry_type = ?1 AND package_name = ?2",
@@ -578,6 +626,8 @@ impl VersionStorer for Cache {
     ) -> Result<(), CacheError> {
         let registry_type = registry_type.as_str();
         let conn = self.lock_conn()?;
+        #[cfg(vlsp_verif)]
+        crate::verif::point("mark.before_update")?;
 
         conn.execute(
             "UPDATE packages SET not_found = 1 WHERE registry_type = ?1 AND package_name = ?2",
